@@ -242,6 +242,10 @@ class Ref:
                 return True
         return False
 
+    def spans_empty(self, pattern_list):
+        """Can the rule match the empty sequence?"""
+        return bool(Ref([], self.mn_full, self.op_full, self.any).m({"$and": pattern_list}, 0, ()))
+
     def nullable(self, pattern_list):
         """Can the rule match the empty sequence (at the end of the listing)?"""
         r = Ref([], self.mn_full, self.op_full, self.any)
